@@ -306,6 +306,26 @@ class C05:
                 got = [d for d in s.deliveries[nd:] if d[3] == 0xCC00 and d[5] == big2]
                 if must and not got:
                     V("followup-lost", "after the sweep a genuine transfer to owned address %d was not delivered" % da, "followup")
+            # an address that is lost WHILE a transport session to it is open: the remaining data packets are addressed to an
+            # address nobody owns any more and must cause no transmission and no delivery (judged well inside T2 = 1.25 s)
+            if ok:
+                cand = [(k, ca) for k, (ca, c) in enumerate(zip(cas, p["cas"])) if ca.state == State.NORMAL
+                        and not any(l["kind"] == "int" and l["addr"] == ca.device_address for l in p["listeners"])]
+                if cand:
+                    k, ca = cand[0]
+                    da = ca.device_address
+                    big3 = bytes(W.make_payload({"n": 300 if fd else 40, "cls": "arith", "a": 55, "b": 9}))
+                    peer.originate_rts(da, 0xCD00, big3, limit=255, dt_gap=0.02, session=6)
+                    w.run_for(0.005)
+                    raw.send(R.mk_id(6, 0, 0xEE, 255, da), R.name_bytes(0x11))          # a lower NAME takes the address
+                    w.run_for(0.002)
+                    if not (ca.state == State.NORMAL and ca.device_address == da):
+                        before = snapshot()
+                        before = (before[0], before[1], None)        # the open session itself may linger until its timeout
+                        w.run_for(0.3)
+                        pstate["n"] += 6
+                        judge_nothing(before, "data packets of a session that was open when the CA lost the address", da, "lost-mid-session")
+                        w.run_for(1.5)
             nframes = pstate["n"]
             live = w.liveness_problems()
         finally:
